@@ -111,6 +111,19 @@ CLAIMED = {
             "columns, Pile never exceeds, cell width when narrower than a cell) evaluated by TLC as DIVERGENCE. Known finding: weighted shares "
             "drift beyond one cell with >= 4 weighted columns/rows.",
             "DESIGN.md §4 C19"),
+    "C02": ("TLA+ grid algebra GridOps.tla (cells <<glyph, attr, charset, part>>, VStack / HJoin / Overlay / PadTrim / MapAttr / Delta, per-operation "
+            "contract OpResult / OpDims / InDomain) model-checked by TLC in Canvas.tla (machine of canvas values; dimension algebra, no half "
+            "characters, coordinates inside or dropped, delta law, algebraic laws between the operators, a trim without blanking refuted); TLC is also "
+            "the program generator (state dump + -simulate); TLC trace validation (CanvasTrace.tla) of every program executed on the real urwid.canvas classes",
+            "TLC proves the grid algebra consistent for every program within bounds and judges, cell for cell, every operation of TLC-dumped, "
+            "TLC-simulated and seeded random programs (combine, join, overlay, pad/trim on all sides, trim, trim_end, fill_attr_apply, wrap, cursor / "
+            "pop-up, content_delta; utf-8, euc-jp, iso8859-1) run on the real TextCanvas / SolidCanvas / BlankCanvas / CompositeCanvas: reported size, "
+            "content, no half double-width glyph, coordinate translation, operands re-read unchanged after every operation, and delta applied to the old "
+            "rows reproducing the new ones.",
+            "Trusted: TLC, GridOps.tla (written from the property text), the content-rows-to-cells projection and alphabet table in vf/props/c02.py "
+            "(checked against urwid's calc_width), program generators (re-checked by GridOps!InDomain in TLC). Leaves <= 4x3, results <= 14x10; "
+            "marks share their base character's attribute; shortcuts/children not modelled. Known finding: content_delta keeps a view that moved.",
+            "DESIGN.md §4 C02"),
 }
 
 NOT_APPLICABLE = {}
